@@ -34,6 +34,20 @@ def prove_for(prop):
                 if fn not in cache:
                     cache[fn] = [dict(c, function=fn) for c in gen("quick", seed) if KEY.get(fn, fn) in c.get("clause", "") or fn in c.get("input_class", "")][:40]
                 x["replay"] = cache[fn]
-        return out
+        # E1-prog: the program each builder hands to the solver is the stated one; the entry point dispatches as stated
+        from props.sdp_prove import prove_sdp
+        from vt.pyvc.termproofs import merge
+
+        which = {"C10": "sd", "C11": "se"}[prop]
+        allc = gen("quick", seed)
+        replay = []
+        seen = {}
+        for c in allc:  # a spread over clauses: at most 6 cases per clause
+            k = c.get("clause", "")
+            if k.startswith("frame") or seen.get(k, 0) >= 6:
+                continue
+            seen[k] = seen.get(k, 0) + 1
+            replay.append(dict(c, function={"sd": "state_distinguishability", "se": "state_exclusion"}[which]))
+        return merge(out, prove_sdp(which, replay[:120], prop.lower() + "p", tier))
 
     return prove
